@@ -82,7 +82,8 @@ type Item struct {
 	Elems []*Item  // Array, Struct
 	Keys  []*Item  // Map, insertion order
 	Vals  []*Item  // Map
-	Pos   int      // Pointer: position in the (only) script
+	Pos   int      // Pointer: position in its script
+	Sid   int      // Pointer: which loaded script (0 = entry script)
 	// EngineMsg marks the ByteString carrying the message of an exception
 	// raised by the engine itself (index out of range, key not found). Its
 	// text is version dependent in the reference; the model never looks at it.
@@ -91,14 +92,14 @@ type Item struct {
 
 var nullItem = &Item{T: TAny}
 
-func mkNull() *Item            { return nullItem }
-func mkBool(b bool) *Item      { return &Item{T: TBoolean, Bool: b} }
-func mkBytes(b []byte) *Item   { return &Item{T: TByteString, Data: b} }
-func mkBuffer(b []byte) *Item  { return &Item{T: TBuffer, Data: b} }
-func mkArray(e []*Item) *Item  { return &Item{T: TArray, Elems: e} }
-func mkStruct(e []*Item) *Item { return &Item{T: TStruct, Elems: e} }
-func mkMap() *Item             { return &Item{T: TMap} }
-func mkPointer(pos int) *Item  { return &Item{T: TPointer, Pos: pos} }
+func mkNull() *Item                { return nullItem }
+func mkBool(b bool) *Item          { return &Item{T: TBoolean, Bool: b} }
+func mkBytes(b []byte) *Item       { return &Item{T: TByteString, Data: b} }
+func mkBuffer(b []byte) *Item      { return &Item{T: TBuffer, Data: b} }
+func mkArray(e []*Item) *Item      { return &Item{T: TArray, Elems: e} }
+func mkStruct(e []*Item) *Item     { return &Item{T: TStruct, Elems: e} }
+func mkMap() *Item                 { return &Item{T: TMap} }
+func mkPointer(pos, sid int) *Item { return &Item{T: TPointer, Pos: pos, Sid: sid} }
 
 func (it *Item) isNull() bool { return it.T == TAny }
 func (it *Item) isPrimitive() bool {
@@ -289,7 +290,7 @@ func plainEquals(a, b *Item) bool {
 	case TBoolean, TInteger:
 		return primEquals(a, b)
 	case TPointer:
-		return b.T == TPointer && a.Pos == b.Pos
+		return b.T == TPointer && a.Pos == b.Pos && a.Sid == b.Sid
 	}
 	return a == b
 }
@@ -334,62 +335,97 @@ func (vm *VM) equals(a, b *Item) bool {
 }
 
 // structEquals is Struct.Equals(other, limits): structs are compared by value,
-// element by element, nested structs recursively (work list), at most
-// MaxStackSize element pairs and MaxComparableSize bytes/items in total;
-// exceeding either budget faults. The order in which a mismatch or an
-// exhausted budget is met first is an artefact of the reference's work list,
-// so a comparison that touches a budget is flagged undetermined.
+// pair by pair, nested structs recursively; a nested struct that is the very
+// same object on both sides is not descended into. The comparison may look at
+// no more than MaxStackSize pairs (the two structs themselves are the first
+// pair) and at no more than MaxComparableSize units (a ByteString costs its
+// length - the longer of the two - but at least 1, every other pair costs 1);
+// exceeding a budget faults.
+//
+// The model states this order-free: it walks ALL pairs (not stopping at a
+// mismatch) and decides from the totals. Where the outcome would depend on
+// the order in which pairs are visited (a mismatch exists AND a budget could
+// be exhausted before it is found), on the exact off-by-one of the pair
+// budget, or on whether the size budget is shared by nested structs, the run
+// is flagged undetermined.
 func (vm *VM) structEquals(a, b *Item) bool {
 	if b.T != TStruct {
 		return false
 	}
-	s1, s2 := []*Item{a}, []*Item{b}
-	count := MaxStackSize
-	size := MaxComparableSize
-	res := true
-	for len(s1) > 0 {
-		if count <= 1 {
-			vm.undet("struct-compare-count-limit")
+	const cap = 3 * MaxStackSize
+	allEqual, nested := true, false
+	pairs, cost := 0, 0
+	type pr struct {
+		x, y  *Item
+		depth int
+	}
+	work := []pr{{a, b, 0}}
+	for len(work) > 0 {
+		p := work[len(work)-1]
+		work = work[:len(work)-1]
+		pairs++
+		if pairs > cap {
+			vm.undet("struct-compare-huge")
+			return false
 		}
-		if count == 0 {
-			fault("EQUAL: too many struct items to compare")
-		}
-		count--
-		x, y := s1[len(s1)-1], s2[len(s2)-1]
-		s1, s2 = s1[:len(s1)-1], s2[:len(s2)-1]
+		x, y := p.x, p.y
 		if x.T == TByteString {
-			if len(x.Data) > size || size == 0 || (y.T == TByteString && len(y.Data) > size) {
-				vm.undet("struct-compare-size-limit")
+			vm.touch(x)
+			c := max(1, len(x.Data))
+			if y.T == TByteString {
+				vm.touch(y)
+				c = max(c, len(y.Data))
+				if x != y && string(x.Data) != string(y.Data) {
+					allEqual = false
+				}
+			} else {
+				allEqual = false
 			}
-			if !vm.bytesEqualsLimited(x, y, &size) {
-				res = false
-				break
-			}
+			cost += c
 			continue
 		}
-		if size == 0 {
-			vm.undet("struct-compare-size-limit")
-			fault("EQUAL: operand exceeds the maximum comparable size")
-		}
-		size--
+		cost++
 		if x.T == TStruct {
 			if x == y {
 				continue
 			}
 			if y.T != TStruct || len(x.Elems) != len(y.Elems) {
-				res = false
-				break
+				allEqual = false
+				continue
 			}
-			s1 = append(s1, x.Elems...)
-			s2 = append(s2, y.Elems...)
+			if p.depth > 0 {
+				nested = true
+			}
+			for i := range x.Elems {
+				work = append(work, pr{x.Elems[i], y.Elems[i], p.depth + 1})
+			}
 			continue
 		}
 		if !plainEquals(x, y) {
-			res = false
-			break
+			allEqual = false
 		}
 	}
-	return res
+	if !allEqual {
+		// false in every visiting order iff no order can exhaust a budget
+		if pairs >= MaxStackSize || cost > MaxComparableSize {
+			vm.undet("struct-compare-mismatch-near-limit")
+		}
+		return false
+	}
+	switch {
+	case pairs == MaxStackSize:
+		// exactly at the pair budget (top pair + 2047 elements)
+		vm.undet("struct-compare-count-limit")
+	case pairs > MaxStackSize:
+		fault("EQUAL: too many struct items to compare")
+	}
+	if cost > MaxComparableSize {
+		if nested {
+			vm.undet("struct-compare-size-limit-nested")
+		}
+		fault("EQUAL: operand exceeds the maximum comparable size")
+	}
+	return true
 }
 
 // cloneStruct is Struct.Clone(limits) used by APPEND/SETITEM/VALUES: a deep
@@ -486,7 +522,11 @@ func Canon(items []*Item) string {
 				b.WriteString("s" + hexAbbrev(it.Data))
 			}
 		case TPointer:
-			fmt.Fprintf(&b, "p%d", it.Pos)
+			if it.Sid == 0 {
+				fmt.Fprintf(&b, "p%d", it.Pos)
+			} else {
+				fmt.Fprintf(&b, "p%d@script%d", it.Pos, it.Sid)
+			}
 		case TBuffer, TArray, TStruct, TMap:
 			if id, ok := ids[it]; ok {
 				fmt.Fprintf(&b, "@%d", id)
